@@ -356,9 +356,10 @@ Definition src_NadaType_bool : list string :=  [
 
 Definition src_compile_script : list string :=  [
    "script_dir = os.path.dirname(script_path)"; 
+   "path_before = list(sys.path)"; 
    "sys.path.insert(0, script_dir)"; 
    "loaded_before = set(sys.modules)"; 
-   "try: ;     return _compile_script(script_path) ; finally: ;     own_dir = os.path.abspath(script_dir) ;     loaded = set(sys.modules) - loaded_before ;     own = {name for name in loaded if '.' not in name and _found_in(sys.modules[name], own_dir)} ;     for name in loaded: ;         if name.split('.')[0] in own: ;             del sys.modules[name] ;     if script_dir in sys.path: ;         sys.path.remove(script_dir)"].
+   "try: ;     return _compile_script(script_path) ; finally: ;     if script_dir in sys.path: ;         sys.path.remove(script_dir) ;     added = [entry for entry in sys.path if entry not in path_before] ;     own_dirs = {os.path.abspath(entry) for entry in added} ;     own_dirs.add(os.path.abspath(script_dir)) ;     loaded = set(sys.modules) - loaded_before ;     own = {name for name in loaded if '.' not in name and any((_found_in(sys.modules[name], own_dir) for own_dir in own_dirs))} ;     for name in loaded: ;         if name.split('.')[0] in own: ;             del sys.modules[name] ;     for entry in added: ;         sys.path.remove(entry)"].
 
 Definition src_compile_string : list string :=  [
    "decoded_program = base64.b64decode(script).decode('utf-8-sig')"; 
